@@ -7,7 +7,7 @@
    derived state with their incremental update rules and their re-initialisation from storage ([reinit]).
    The governance theorems are for the REPAIRED code (flags fix_block_dirty: finding F7, fix_gpv_drop: finding F23);
    for each unrepaired behaviour a counter-example history is proved. *)
-From NG Require Import Common.Tactics Tokens.Model Tokens.Inv Tokens.OpProofs Node.Layers Node.Gov Node.GovProofs Node.Witness Node.C01Theorems.
+From NG Require Import Common.Tactics Tokens.Model Tokens.Inv Tokens.OpProofs Node.Layers Node.Gov Node.GovProofs Node.Restart Node.Witness Node.C01Theorems.
 Open Scope Z_scope.
 
 (* a flush of any number of layers at any time changes no answer of the node *)
@@ -51,24 +51,34 @@ Print Assumptions C01_cache_coherent.
 
 (* ... hence a node restarted after any block gives the same answers (committee, next block validators, validators of
    the next epoch, blocked accounts, fee settings, register price) over the same storage, and is coherent again *)
-Theorem C01_restart_transparent_partial : forall cfg, cfg_wf cfg -> fix_block_dirty cfg = true -> fix_gpv_drop cfg = true ->
+Theorem C01_restart_answers_and_coherence : forall cfg, cfg_wf cfg -> fix_block_dirty cfg = true -> fix_gpv_drop cfg = true ->
   0 < csize cfg -> forall bs, blocks_ok cfg bs ->
   obs cfg (reinit cfg (reach cfg bs)) = obs cfg (reach cfg bs)
   /\ sto (reinit cfg (reach cfg bs)) = sto (reach cfg bs)
   /\ Coh cfg (reinit cfg (reach cfg bs)).
 Proof. exact restart_transparent_partial. Qed.
-Print Assumptions C01_restart_transparent_partial.
+Print Assumptions C01_restart_answers_and_coherence.
 
-(* the full statement (not proved in this round): the storage and the answers of a node restarted after ANY block
-   coincide with those of the node that kept running after ANY continuation.  What is missing is the congruence of
-   every operation of the model under the two cache fields that legitimately differ after a restart (votesChanged,
-   gas-per-vote cache); it is checked on the real code by the replica differential at every height. *)
-Definition C01_restart_transparent_statement : Prop :=
-  forall cfg, cfg_wf cfg -> fix_block_dirty cfg = true -> fix_gpv_drop cfg = true -> 0 < csize cfg ->
-  forall bs bs', blocks_ok cfg bs -> blocks_ok cfg bs' ->
-  let st := reach cfg bs in
-  sto (fold_left (step cfg) bs' (reinit cfg st)) = sto (fold_left (step cfg) bs' st)
-  /\ obs cfg (fold_left (step cfg) bs' (reinit cfg st)) = obs cfg (fold_left (step cfg) bs' st).
+(* restart_transparent, in full: the storage of the modelled contracts and every answer of a node restarted after ANY
+   block coincide with those of the node that kept running, after ANY continuation ([step]: a block of any transactions).
+   Proof: a simulation relation (Node/Restart.v, [Sim]) that allows the two nodes to differ exactly in what a restart
+   changes — votesChanged, the gas-per-vote cache, shadowed duplicates in the gas-per-block cache — is preserved by every
+   operation of the model with equal results; where the two nodes take different branches (one recomputes the
+   next-epoch committee, the other does not) coherence makes the outcomes equal. *)
+Theorem C01_restart_transparent : forall cfg, cfg_wf cfg -> fix_block_dirty cfg = true -> fix_gpv_drop cfg = true ->
+  0 < csize cfg -> forall bs bs', blocks_ok cfg bs -> blocks_ok cfg bs' ->
+  sto (fold_left (step cfg) bs' (reinit cfg (reach cfg bs))) = sto (fold_left (step cfg) bs' (reach cfg bs))
+  /\ obs cfg (fold_left (step cfg) bs' (reinit cfg (reach cfg bs))) = obs cfg (fold_left (step cfg) bs' (reach cfg bs)).
+Proof. exact restart_transparent_full. Qed.
+Print Assumptions C01_restart_transparent.
+
+(* ... and with any number of restarts at any block boundaries ([gstep]: a block or a restart) *)
+Theorem C01_restarts_transparent : forall cfg, cfg_wf cfg -> fix_block_dirty cfg = true -> fix_gpv_drop cfg = true ->
+  0 < csize cfg -> forall es, blocks_ok cfg (gblocks es) ->
+  sto (fold_left (gstep cfg) es (genesis cfg)) = sto (reach cfg (gblocks es))
+  /\ obs cfg (fold_left (gstep cfg) es (genesis cfg)) = obs cfg (reach cfg (gblocks es)).
+Proof. exact restarts_transparent_full. Qed.
+Print Assumptions C01_restarts_transparent.
 
 (* the two findings as theorems about the unrepaired mechanism: F7 — after Policy.blockAccount of an elected candidate
    with no NEO movement until the epoch ends, a restarted node announces other validators than the running one *)
